@@ -27,7 +27,7 @@ ASSUMPTIONS = ["the number chosen for a _BAK<n> suffix is not asserted, only tha
 MIN_COUNTERS = {"quick": {"registry_checks": 2000, "collisions": 150, "isolation_snapshots": 5000},
                 "thorough": {"registry_checks": 5000, "collisions": 500, "isolation_snapshots": 5000}}
 
-NAMES = ["X", "Y", "Z", "X_BAK1", "X_BAK2", "Y_BAK1"]
+NAMES = ["X", "Y", "Z", "X_BAK1", "X_BAK2", "Y_BAK1", "Model1", "Model2", "Model3"]
 BAD = ["1a", "_x", "", "a b", "for", "a.b"]
 
 
